@@ -23,6 +23,9 @@ Extractors are registered per property in EXTRACTORS below (properties without a
   C08            Gen/SrcKmpLps.lean, SrcShiftAndMasks.lean, SrcHorspoolNew.lean
   C18            Gen/SrcFenwick.lean, SrcBitEnc.lean
   C04            Gen/SrcBwt.lean, SrcPrescan.lean
+  C18 C03        Gen/SrcSmallInts.lean   (genbits) SmallInts::{real_value,get,push,set,from_elem,len}; SrcBitEnc.lean also holds
+                                      BitEnc::{new,push,push_values,set,get,clear,nr_blocks,nr_symbols,len}
+  C17            Gen/SrcRankSelect.lean, SrcWavelet.lean   (genbits) superblocks, rank_1, rank_0; check_overflow, prank, rank
                                       whole function bodies (kmp::lps, KMP::delta, shift_and::masks, Horspool::new,
                                       FenwickTree::get/set, bitenc mask/addr/get_by_addr/set_by_addr, bwt::bwt,
                                       utils::prescan) translated to Lean by tools/rs2lean.py; the equality theorems
@@ -779,6 +782,8 @@ def gen_src(unit_name):
 
 
 GEN_SRC = {n: gen_src(n) for n in ("SrcKmpLps", "SrcShiftAndMasks", "SrcHorspoolNew", "SrcFenwick", "SrcBitEnc", "SrcBwt", "SrcPrescan")}
+# (genbits) bit-packed containers: SmallInts (C18, C03), RankSelect and WaveletMatrix (C17)
+GEN_SRC.update({n: gen_src(n) for n in ("SrcSmallInts", "SrcRankSelect", "SrcWavelet")})
 
 
 # ------------------------------------------------------------------------------------------ theorem modules built here
@@ -832,6 +837,10 @@ EXTRACTORS = {
     "C08": [GEN_SRC["SrcKmpLps"], GEN_SRC["SrcShiftAndMasks"], GEN_SRC["SrcHorspoolNew"]],
     "C18": [GEN_SRC["SrcFenwick"], GEN_SRC["SrcBitEnc"]],
 }
+# (genbits) additional units, appended so that concurrent edits of the table above merge trivially
+EXTRACTORS["C18"] = EXTRACTORS["C18"] + [GEN_SRC["SrcSmallInts"]]
+EXTRACTORS["C03"] = EXTRACTORS["C03"] + [GEN_SRC["SrcSmallInts"]]
+EXTRACTORS["C17"] = EXTRACTORS["C17"] + [GEN_SRC["SrcRankSelect"], GEN_SRC["SrcWavelet"]]
 
 
 def main():
